@@ -63,7 +63,7 @@ def base_cmd(target_dir, features, harness):
 def find_mangled(target_dir, harness_fqn, pretty):
     """look the mangled name of `pretty` up in the pretty-name map Kani wrote for this harness"""
     out = set()
-    short = "".join("%d%s" % (len(c), c) for c in harness_fqn.split("::")[-2:])
+    short = "".join("%d%s" % (len(c), c) for c in harness_fqn.split("::")[-3:])
     for f in glob.glob(os.path.join(target_dir, "kani", "**", "*pretty_name_map.json"), recursive=True):
         if short not in os.path.basename(f):
             continue
@@ -162,7 +162,7 @@ def classify(parsed, timed_out, rc, ffi_oracle=False):
 def run_harness(overlay, target_dir, h, logdir, timeout, mem_gb):
     """h: dict(fqn, features, unwindset_ioerr=True, ffi_oracle=False, extra_cbmc=[]) -> result dict"""
     os.makedirs(logdir, exist_ok=True)
-    short = ".".join(h["fqn"].split("::")[-2:])
+    short = ".".join(h["fqn"].split("::")[-3:])
     t0 = time.time()
     cmd = base_cmd(target_dir, h.get("features"), h["fqn"])
     cbmc_args = list(h.get("extra_cbmc", []))
@@ -181,6 +181,10 @@ def run_harness(overlay, target_dir, h, logdir, timeout, mem_gb):
         names = find_mangled(target_dir, h["fqn"], IOERR_DROP)
         for n in names:
             cbmc_args += ["--unwindset", n + ":1"]
+        # further recursions bounded explicitly (their unwinding assertions stay on)
+        for pretty, bound in (h.get("unwindset") or {}).items():
+            for n in find_mangled(target_dir, h["fqn"], pretty):
+                cbmc_args += ["--unwindset", "%s:%d" % (n, bound)]
     log = os.path.join(logdir, short + ".log")
     full = cmd + (["--cbmc-args"] + cbmc_args if cbmc_args else [])
     left = max(30, timeout - (time.time() - t0))
@@ -199,7 +203,7 @@ def playback_print(overlay, target_dir, h, logdir, timeout, mem_gb, prop=None):
     """re-run a failing harness with concrete playback (restricted to the failing CBMC property:
     a trace for every property of a large harness takes 15 min and 40 GB); returns the generated
     unit test text"""
-    short = ".".join(h["fqn"].split("::")[-2:])
+    short = ".".join(h["fqn"].split("::")[-3:])
     cmd = base_cmd(target_dir, h.get("features"), h["fqn"])
     cmd += ["-Z", "concrete-playback", "--concrete-playback=print"]
     cbmc_args = list(h.get("extra_cbmc", []))
@@ -208,6 +212,9 @@ def playback_print(overlay, target_dir, h, logdir, timeout, mem_gb, prop=None):
     if h.get("unwindset_ioerr", True):
         for n in find_mangled(target_dir, h["fqn"], IOERR_DROP):
             cbmc_args += ["--unwindset", n + ":1"]
+        for pretty, bound in (h.get("unwindset") or {}).items():
+            for n in find_mangled(target_dir, h["fqn"], pretty):
+                cbmc_args += ["--unwindset", "%s:%d" % (n, bound)]
     if cbmc_args:
         cmd += ["--cbmc-args"] + cbmc_args
     log = os.path.join(logdir, short + ".playback.log")
